@@ -1,5 +1,6 @@
 import Gowarc.Driver.Util
 import Gowarc.Model.HeaderParser
+import Gowarc.Model.WriteTo
 namespace Gowarc.Driver
 open Gowarc
 
@@ -44,6 +45,17 @@ def handleApiParse (args : List String) : String :=
       match parseFields (Pol.ofCode pol) ⟨ser, false⟩ with
       | .ok fs' fnd _ => s!"{showFields fs'}/{showTags fnd}/"
       | .err t fnd => s!"-/{showTags fnd}/{tagStr t}"))
+  | _ => "bad-args"
+
+/-- wfault <fields> <budget>: Add through the API, Write to a writer that fails once after <budget> bytes -/
+def handleWfault (args : List String) : String :=
+  match args with
+  | [f, b] =>
+    let pairs : List (Bytes × Bytes) := if f == "-" then [] else (f.splitOn ",").filterMap (fun kv =>
+      match kv.splitOn ":" with | [n, v] => some (hx n, hx v) | _ => none)
+    let fs : Fields := pairs.foldl (fun acc nv => acc.add nv.1 nv.2) []
+    let r := fs.writeTo ⟨[], parseNat b, false⟩
+    s!"n={r.2.1} err={showBool r.2.2} got={r.1.got.length}:{toHex r.1.got}"
   | _ => "bad-args"
 
 end Gowarc.Driver
